@@ -183,8 +183,8 @@ pub fn run(eng: &Engine) {
     eng.assume("accesses beyond the allocation are trapped by the harness allocator's fence mode (allocation flush against an inaccessible page, both ends in turn) also when the bytes read are discarded; reads of bytes INSIDE the allocation that were never written are visible to the release harness only when they flow into live data (poison pattern vs. queue model) - the thorough tier adds Miri for those, and AddressSanitizer (cargo-fuzz targets ringbuf_ops / decodebuf_ops) as a second engine");
     let limit = cap_limit(eng);
     let big = if eng.tier == Tier::Quick { 1500 } else { 20_000 };
-    let n_ring = eng.tier.pick(300_000, 1_500_000);
-    let n_dbuf = eng.tier.pick(150_000, 1_000_000);
+    let n_ring = eng.tier.pick(300_000, 600_000);
+    let n_dbuf = eng.tier.pick(150_000, 400_000);
     eng.run_stage("ring_ops", n_ring, || ops_strategy(60, big), move |ops: &Vec<Op>, ctx| ring_case(ops, ctx, limit));
     eng.run_stage("decodebuf_ops", n_dbuf, || dcase_strategy(50), decodebuf_case);
     if !eng.has_violation() {
